@@ -488,7 +488,7 @@ func dirBlock(d *RDir, depth int, l *Layout) block {
 	for i, p := range d.Params {
 		must := needsQuote(p) || (i < len(d.MustQuote) && d.MustQuote[i] && strings.ContainsAny(p, " "))
 		q := p
-		if must || (l.QuoteAll && !strings.HasPrefix(p, "[") && l.R.Intn(2) == 0) || (i < len(d.MustQuote) && d.MustQuote[i] && l.R.Intn(2) == 0) {
+		if must || (l.QuoteAll && l.R.Intn(2) == 0) || (i < len(d.MustQuote) && d.MustQuote[i] && l.R.Intn(2) == 0) {
 			q = quote(p)
 		}
 		sep := " "
